@@ -1,14 +1,31 @@
 import DryocVerif.Model.TypeState
+import DryocVerif.Model.Protected
+import DryocVerif.Proofs.TypeStateBridge
 /-
 C20 — safe code cannot request an access the current state forbids.
-The theorem is about the `permits` table; that rustc accepts exactly this table is measured
-exhaustively on every run (one misuse and one control program per cell).
+
+Three layers, kept apart on purpose:
+ 1. THE TABLE (`Model/TypeState.lean`: `permits pm lm cont op` = "the safe API has this method on
+    `Protected<cont, pm, lm>`").  That rustc accepts exactly this table is MEASURED exhaustively on
+    every run (one misuse and one control program per cell); it is not a theorem.
+ 2. TABLE-LEVEL THEOREMS (`permits_sound` … `well_typed_no_fault`): every operation the table offers
+    performs only accesses that the protect-mode MARKER of the state allows (`allowed`).  These say
+    nothing about pages.
+ 3. THE BRIDGE to the kernel model of C14 (`permitted_read_no_segv` … `well_typed_no_segv`): in every
+    state satisfying the invariant of C14 (hence every reachable one), a region whose type state is
+    `(pm, lm)` really has the page rights the marker stands for, so an access FAULTS (`segv` in the
+    model = SIGSEGV of the probing child in the harness) IF AND ONLY IF the table's `allowed`
+    forbids it.  Hence the table forbids exactly the accesses that would crash, and a well-typed
+    program never crashes.
 -/
 namespace DryocVerif.Properties.C20
 open DryocVerif.Model.TypeState
 
-/-- everything the API offers in a state is allowed by the page rights that state guarantees (C14):
-a permitted program never touches a page in a way its protection forbids -/
+/-! ### table level -/
+
+/-- (table level) every operation the API offers in a state performs only accesses that the
+state's protect-mode marker allows.  This is a statement about the two tables `permits` and
+`allowed`; that the marker agrees with the real page rights is `marker_is_page_right` below. -/
 theorem permits_sound (pm : PM) (lm : LM) (c : Cont) (op : Op) (h : permits pm lm c op = true) :
     allowed pm (access op) = true := by
   cases op <;> cases pm <;> cases lm <;> cases c <;> simp_all [permits, allowed, access]
@@ -22,6 +39,10 @@ theorem read_view_not_na (pm : PM) (lm : LM) (c : Cont) : permits pm lm c .readV
 theorem no_access_only_unlocked (pm : PM) (lm : LM) (c : Cont) : permits pm lm c .na = true → lm = .unlocked := by
   cases lm <;> simp [permits]
 
+/-- `useAfter` is a PSEUDO-operation of the table ("use of a handle after a transition consumed
+it"); the table has `false` in that row for every state, by definition.  The theorem records that
+definition and nothing more: that such a program is in fact rejected (E0382, use of moved value) is
+part of the measurement on rustc, not of this theorem. -/
 theorem nothing_after_consumed (pm : PM) (lm : LM) (c : Cont) : permits pm lm c .useAfter = false := rfl
 
 theorem stream_push_only_push (m : Mode) : streamPermits m .push = true → m = .push := by cases m <;> simp [streamPermits]
@@ -33,12 +54,14 @@ def wellTyped (c : Cont) : PM → LM → List Op → Bool
   | _, _, [] => true
   | pm, lm, op :: rest => permits pm lm c op && wellTyped c (next pm lm op).1 (next pm lm op).2 rest
 
-/-- running a program: `true` iff no step performs an access its current page rights forbid -/
+/-- running a program IN THE TABLE WORLD: `true` iff no step performs an access that the protect-mode
+marker of the current table state forbids (no pages involved; see `well_typed_no_segv` for pages) -/
 def noFault : PM → LM → List Op → Bool
   | _, _, [] => true
   | pm, lm, op :: rest => allowed pm (access op) && noFault (next pm lm op).1 (next pm lm op).2 rest
 
-/-- **type state ⇒ no crash**, for programs of any length -/
+/-- (table level) a well-typed program of any length never performs an access its current marker
+forbids -/
 theorem well_typed_no_fault (c : Cont) (pm : PM) (lm : LM) (prog : List Op) :
     wellTyped c pm lm prog = true → noFault pm lm prog = true := by
   induction prog generalizing pm lm with
@@ -51,5 +74,202 @@ theorem well_typed_no_fault (c : Cont) (pm : PM) (lm : LM) (prog : List Op) :
 /-- non-vacuity: a non-trivial well-typed program and an ill-typed one -/
 example : wellTyped .bytes .rw .locked [.mutView, .ro, .readView, .unlock, .na, .rw, .resize] = true := by decide
 example : wellTyped .bytes .rw .locked [.ro, .mutView] = false := by decide
+
+/-- non-vacuity of `noFault`: it is not constantly `true` — reading a no-access region, or writing
+after `ro`, is a fault of the table semantics -/
+example : noFault .na .unlocked [.readView] = false ∧ noFault .rw .locked [.ro, .mutView] = false ∧
+    noFault .rw .locked [.ro, .readView] = true := by decide
+
+/-! ### the bridge to the kernel model of C14 -/
+
+open DryocVerif DryocVerif.Proofs.TypeStateBridge
+open DryocVerif.Model.Protected (Cfg State Slot Tok Res St opRProbe opWProbe step run runState resetRel setSlot)
+open DryocVerif.Proofs.Protected (Inv inv_runState inv_init)
+
+/-- the translation of the markers is one-to-one and onto (so "`conv⁻¹`" makes sense: every kernel
+type state `.prot lm' pm'` is `stOf pm lm` for exactly one table state) -/
+theorem conv_bijective :
+    ((∀ a b, convPM a = convPM b → a = b) ∧ ∀ q, ∃ a, convPM a = q) ∧
+    ((∀ a b, convLM a = convLM b → a = b) ∧ ∀ q, ∃ a, convLM a = q) :=
+  ⟨convPM_bij, convLM_bij⟩
+
+/-- **the marker is the page right**: in a state satisfying the invariant of C14, for a live region
+whose type state is the table state `(pm, lm)`, a read (a write) at ANY byte succeeds if and only if
+the table's `allowed pm .read` (`allowed pm .write`) holds, and faults otherwise. -/
+theorem marker_is_page_right (c : Cfg) (hP : 0 < c.P) (s : State) (h : Inv c s) (i : Nat) (sl : Slot)
+    (hi : s.slots[i]? = some sl) (hg : sl.gone = false) (pm : PM) (lm : LM)
+    (hst : sl.o.st = .prot (convLM lm) (convPM pm)) (off : Nat) (hoff : off < sl.o.v.len) :
+    ((opRProbe c s i off).1 = .ok ↔ allowed pm .read = true) ∧
+    ((opRProbe c s i off).1 = .segv ↔ allowed pm .read = false) ∧
+    ((opWProbe c s i off).1 = .ok ↔ allowed pm .write = true) ∧
+    ((opWProbe c s i off).1 = .segv ↔ allowed pm .write = false) :=
+  ⟨rprobe_ok_iff hP h hi hg hst hoff, rprobe_segv_iff hP h hi hg hst hoff,
+   wprobe_ok_iff hP h hi hg hst hoff, wprobe_segv_iff hP h hi hg hst hoff⟩
+
+/-- if the API offers `as_slice()` (`Bytes`) in the state of a live region, reading any of its bytes
+does not fault -/
+theorem permitted_read_no_segv (c : Cfg) (hP : 0 < c.P) (s : State) (h : Inv c s) (i : Nat) (sl : Slot)
+    (hi : s.slots[i]? = some sl) (hg : sl.gone = false) (pm : PM) (lm : LM) (ct : Cont)
+    (hst : sl.o.st = .prot (convLM lm) (convPM pm)) (hperm : permits pm lm ct .readView = true)
+    (off : Nat) (hoff : off < sl.o.v.len) : (opRProbe c s i off).1 = .ok :=
+  (rprobe_ok_iff hP h hi hg hst hoff).mpr (permits_sound pm lm ct .readView hperm)
+
+/-- if the API offers `as_mut_slice()` (`MutBytes`) in the state of a live region, writing any of its
+bytes does not fault -/
+theorem permitted_write_no_segv (c : Cfg) (hP : 0 < c.P) (s : State) (h : Inv c s) (i : Nat) (sl : Slot)
+    (hi : s.slots[i]? = some sl) (hg : sl.gone = false) (pm : PM) (lm : LM) (ct : Cont)
+    (hst : sl.o.st = .prot (convLM lm) (convPM pm)) (hperm : permits pm lm ct .mutView = true)
+    (off : Nat) (hoff : off < sl.o.v.len) : (opWProbe c s i off).1 = .ok :=
+  (wprobe_ok_iff hP h hi hg hst hoff).mpr (permits_sound pm lm ct .mutView hperm)
+
+/-- the same for EVERY operation of the table, by the access it performs (`index`, `as_array`,
+`clone` read; `resize` writes) -/
+theorem permitted_access_no_segv (c : Cfg) (hP : 0 < c.P) (s : State) (h : Inv c s) (i : Nat) (sl : Slot)
+    (hi : s.slots[i]? = some sl) (hg : sl.gone = false) (pm : PM) (lm : LM) (ct : Cont)
+    (hst : sl.o.st = .prot (convLM lm) (convPM pm)) (op : Op) (hperm : permits pm lm ct op = true)
+    (off : Nat) (hoff : off < sl.o.v.len) :
+    (access op = .read → (opRProbe c s i off).1 = .ok) ∧
+    (access op = .write → (opWProbe c s i off).1 = .ok) := by
+  have hal := permits_sound pm lm ct op hperm
+  refine ⟨fun ha => ?_, fun ha => ?_⟩
+  · rw [ha] at hal; exact (rprobe_ok_iff hP h hi hg hst hoff).mpr hal
+  · rw [ha] at hal; exact (wprobe_ok_iff hP h hi hg hst hoff).mpr hal
+
+/-- tightness, read side: where the API does NOT offer `as_slice()` — exactly the no-access states —
+a read of any byte does fault: the missing impl forbids nothing harmless -/
+theorem forbidden_read_segv (c : Cfg) (hP : 0 < c.P) (s : State) (h : Inv c s) (i : Nat) (sl : Slot)
+    (hi : s.slots[i]? = some sl) (hg : sl.gone = false) (pm : PM) (lm : LM) (ct : Cont)
+    (hst : sl.o.st = .prot (convLM lm) (convPM pm)) (hperm : permits pm lm ct .readView = false)
+    (off : Nat) (hoff : off < sl.o.v.len) : pm = .na ∧ (opRProbe c s i off).1 = .segv := by
+  have hna : pm = .na := by cases pm <;> simp_all [permits]
+  refine ⟨hna, (rprobe_segv_iff hP h hi hg hst hoff).mpr ?_⟩
+  rw [hna]; rfl
+
+/-- tightness, write side: where the API does NOT offer `as_mut_slice()` — exactly the states with
+`pm ≠ ReadWrite` — a write to any byte does fault -/
+theorem forbidden_write_segv (c : Cfg) (hP : 0 < c.P) (s : State) (h : Inv c s) (i : Nat) (sl : Slot)
+    (hi : s.slots[i]? = some sl) (hg : sl.gone = false) (pm : PM) (lm : LM) (ct : Cont)
+    (hst : sl.o.st = .prot (convLM lm) (convPM pm)) (hperm : permits pm lm ct .mutView = false)
+    (off : Nat) (hoff : off < sl.o.v.len) : pm ≠ .rw ∧ (opWProbe c s i off).1 = .segv := by
+  have hne : pm ≠ .rw := by cases pm <;> simp_all [permits]
+  refine ⟨hne, (wprobe_segv_iff hP h hi hg hst hoff).mpr ?_⟩
+  cases pm <;> simp_all [allowed]
+
+/-- **the table forbids exactly the accesses that would fault**: `as_slice()` is offered iff a read
+succeeds, `as_mut_slice()` is offered iff a write succeeds -/
+theorem views_offered_iff_no_segv (c : Cfg) (hP : 0 < c.P) (s : State) (h : Inv c s) (i : Nat) (sl : Slot)
+    (hi : s.slots[i]? = some sl) (hg : sl.gone = false) (pm : PM) (lm : LM) (ct : Cont)
+    (hst : sl.o.st = .prot (convLM lm) (convPM pm)) (off : Nat) (hoff : off < sl.o.v.len) :
+    (permits pm lm ct .readView = true ↔ (opRProbe c s i off).1 = .ok) ∧
+    (permits pm lm ct .mutView = true ↔ (opWProbe c s i off).1 = .ok) := by
+  rw [rprobe_ok_iff hP h hi hg hst hoff, wprobe_ok_iff hP h hi hg hst hoff]
+  constructor <;> cases pm <;> simp [permits, allowed]
+
+/-- non-vacuity witness for the bridge (hypotheses satisfiable, both outcomes occur): slot 0 is a
+`LockedRO` region = table state `(ro, locked)`; reading is offered and succeeds, writing is not
+offered and faults -/
+example :
+    let c : Cfg := { P := 4096, isArr := false, n := 16 }
+    let s := runState c (State.init fun _ => true) [⟨.new, 0⟩, ⟨.lock, 0⟩, ⟨.ro, 0⟩]
+    (∃ sl, s.slots[0]? = some sl ∧ sl.gone = false ∧ sl.o.st = .prot (convLM .locked) (convPM .ro) ∧
+      15 < sl.o.v.len) ∧
+    permits .ro .locked .bytes .readView = true ∧ (opRProbe c s 0 15).1 = .ok ∧
+    permits .ro .locked .bytes .mutView = false ∧ (opWProbe c s 0 15).1 = .segv := by
+  refine ⟨⟨_, rfl, ?_⟩, ?_⟩ <;> decide
+
+/-! the same in every reachable state (`step` resets the release log and runs the probe) -/
+
+theorem permitted_access_no_segv_reachable (c : Cfg) (hP : 0 < c.P) (oracle : Nat → Bool) (toks : List Tok)
+    (i : Nat) (sl : Slot) (hi : (runState c (State.init oracle) toks).slots[i]? = some sl)
+    (hg : sl.gone = false) (pm : PM) (lm : LM) (ct : Cont)
+    (hst : sl.o.st = .prot (convLM lm) (convPM pm)) (op : Op) (hperm : permits pm lm ct op = true)
+    (off : Nat) (hoff : off < sl.o.v.len) :
+    (access op = .read → (step c (runState c (State.init oracle) toks) ⟨.rprobe off, i⟩).1 = .ok) ∧
+    (access op = .write → (step c (runState c (State.init oracle) toks) ⟨.wprobe off, i⟩).1 = .ok) :=
+  permitted_access_no_segv c hP (resetRel (runState c (State.init oracle) toks))
+    (inv_runState hP toks (inv_init c oracle)) i sl hi hg pm lm ct hst op hperm off hoff
+
+theorem forbidden_access_segv_reachable (c : Cfg) (hP : 0 < c.P) (oracle : Nat → Bool) (toks : List Tok)
+    (i : Nat) (sl : Slot) (hi : (runState c (State.init oracle) toks).slots[i]? = some sl)
+    (hg : sl.gone = false) (pm : PM) (lm : LM) (ct : Cont)
+    (hst : sl.o.st = .prot (convLM lm) (convPM pm)) (off : Nat) (hoff : off < sl.o.v.len) :
+    (permits pm lm ct .readView = false →
+      (step c (runState c (State.init oracle) toks) ⟨.rprobe off, i⟩).1 = .segv) ∧
+    (permits pm lm ct .mutView = false →
+      (step c (runState c (State.init oracle) toks) ⟨.wprobe off, i⟩).1 = .segv) :=
+  ⟨fun hp => (forbidden_read_segv c hP (resetRel (runState c (State.init oracle) toks))
+      (inv_runState hP toks (inv_init c oracle)) i sl hi hg pm lm ct hst hp off hoff).2,
+   fun hp => (forbidden_write_segv c hP (resetRel (runState c (State.init oracle) toks))
+      (inv_runState hP toks (inv_init c oracle)) i sl hi hg pm lm ct hst hp off hoff).2⟩
+
+/-! ### the transitions of the table are the transitions of the kernel model -/
+
+/-- For the five type-state transitions: if the table offers the transition in state `(pm, lm)`, the
+harness token of the same name answers `ok` and the slot is then in the table's successor state
+`next pm lm op` with the same container — or, for `lock` only, `err` and the slot is consumed; if
+the table does NOT offer it (`lock`, `na` on a locked region) the model answers `n/a` and nothing
+changes.  (No invariant needed.) -/
+theorem transitions_follow_table (c : Cfg) (s : State) (i : Nat) (sl : Slot)
+    (hi : s.slots[i]? = some sl) (hg : sl.gone = false) (pm : PM) (lm : LM) (ct : Cont)
+    (hst : sl.o.st = .prot (convLM lm) (convPM pm)) (op : Op) (k : Model.Protected.Op)
+    (hk : (op = .lock ∧ k = .lock) ∨ (op = .unlock ∧ k = .unlock) ∨ (op = .ro ∧ k = .ro) ∨
+      (op = .rw ∧ k = .rw) ∨ (op = .na ∧ k = .na)) :
+    (permits pm lm ct op = true →
+      ∃ m', step c s ⟨k, i⟩ = (.ok, setSlot (resetRel s) m' i
+          { sl with o := ⟨.prot (convLM (next pm lm op).2) (convPM (next pm lm op).1), sl.o.v⟩ }) ∨
+        (op = .lock ∧ step c s ⟨k, i⟩ = (.err, setSlot (resetRel s) m' i { sl with gone := true }))) ∧
+    (permits pm lm ct op = false → step c s ⟨k, i⟩ = (.na, resetRel s)) :=
+  ⟨trans_live hi hg ct hst op k hk, trans_forbidden_na hi hg ct hst op k hk⟩
+
+/-! ### programs -/
+
+/-- **type state ⇒ no crash, on the kernel model.**  Take any state satisfying the invariant of C14
+in which slot `i` is a live region in table state `(pm, lm)` with more than `off` bytes (or is
+already consumed).  Run a well-typed program on it, each table operation replaced by its harness
+token (`tokOf`: the five transitions by the tokens of the same name — `lock` may be refused or fail,
+whatever the oracle says —, every other operation by the access it performs at byte `off`).  Then
+NO step answers `segv`. -/
+theorem well_typed_no_segv (c : Cfg) (hP : 0 < c.P) (ct : Cont) (i off : Nat) (prog : List Op) :
+    ∀ (s : State) (pm : PM) (lm : LM), SlotIn c s i off pm lm → wellTyped ct pm lm prog = true →
+      ∀ r ∈ run c s (prog.filterMap (tokOf i off)), r.1 ≠ .segv := by
+  induction prog with
+  | nil => intro s pm lm _ _ r hr; simp [run] at hr
+  | cons op rest ih =>
+    intro s pm lm hin hw r hr
+    simp only [wellTyped, Bool.and_eq_true] at hw
+    cases ht : tokOf i off op with
+    | none => cases op <;> simp [tokOf] at ht; simp [permits] at hw
+    | some t =>
+      have hs := step_no_segv hP ct hin op hw.1 t ht
+      simp only [List.filterMap_cons, ht, run, List.mem_cons] at hr
+      rcases hr with rfl | hr
+      · exact hs.1
+      · exact ih _ _ _ hs.2 hw.2 r hr
+
+/-- … in particular from every reachable state (the slot may even be consumed already: then every
+token answers `n/a`) -/
+theorem well_typed_no_segv_reachable (c : Cfg) (hP : 0 < c.P) (oracle : Nat → Bool) (toks : List Tok)
+    (ct : Cont) (i off : Nat) (sl : Slot) (pm : PM) (lm : LM)
+    (hi : (runState c (State.init oracle) toks).slots[i]? = some sl)
+    (hst : sl.o.st = .prot (convLM lm) (convPM pm)) (hoff : off < sl.o.v.len)
+    (prog : List Op) (hw : wellTyped ct pm lm prog = true) :
+    ∀ r ∈ run c (runState c (State.init oracle) toks) (prog.filterMap (tokOf i off)), r.1 ≠ .segv :=
+  well_typed_no_segv c hP ct i off prog _ pm lm
+    ⟨inv_runState hP toks (inv_init c oracle), sl, hi, Or.inr ⟨hst, hoff⟩⟩ hw
+
+/-- non-vacuity witness (`well_typed_no_segv`): the well-typed program above on a `Locked` 16-byte
+region runs without a fault (here even without `n/a`: all `ok`), the ill-typed one — which rustc
+rejects — DOES fault at its second step; and with a refusing oracle the `lock` in the middle answers
+`err`, after which the handle is gone and nothing faults either -/
+example :
+    let c : Cfg := { P := 4096, isArr := false, n := 16 }
+    let s := runState c (State.init fun _ => true) [⟨.new, 0⟩, ⟨.lock, 0⟩]
+    let s' := runState c (State.init fun _ => true) [⟨.new, 0⟩, ⟨.lock, 0⟩, ⟨.failfrom 1, 0⟩]
+    (run c s ([.mutView, .ro, .readView, .unlock, .na, .rw, .resize].filterMap (tokOf 0 15))).map (·.1) =
+      [.ok, .ok, .ok, .ok, .ok, .ok, .ok] ∧
+    (run c s ([Op.ro, .mutView].filterMap (tokOf 0 15))).map (·.1) = [.ok, .segv] ∧
+    wellTyped .bytes .rw .locked [.unlock, .lock, .readView] = true ∧
+    (run c s' ([Op.unlock, .lock, .readView].filterMap (tokOf 0 15))).map (·.1) = [.ok, .err, .na] := by
+  decide
 
 end DryocVerif.Properties.C20
